@@ -281,6 +281,13 @@ MapKeyOf(fd) ==
    CASE fd.n = "content" -> "application/json" [] fd.n = "responses" /\ fd.k = "Response2" -> "200"
      [] fd.n = "paths" -> "/p" [] fd.n = "variables" -> "var" [] OTHER -> "k1"
 
+(* two keys (sorted) that a map of this field may carry and that are NOT in any canonical spelling *)
+MapKeys2(fd) ==
+   CASE fd.n = "content" -> <<"application/EDI-X12", "text/plain; charset=UTF-8">>
+     [] fd.n = "responses" /\ fd.k = "Response2" -> <<"404", "default">>
+     [] fd.n = "paths" -> <<"/P/{Id}", "/p/">>
+     [] OTHER -> <<"K-Upper", "k.1">>
+
 AnyV == Ov(<<"a", "b", "e", "f">>,
            <<Av(<<Nm("1"), Sv("x"), N, Bv(TRUE), Bv(FALSE), Nm("0"), Sv(""), Nm("-2.5")>>),
              O1("c", Nm("0.5")), EmptyO, EmptyA>>)
@@ -300,6 +307,7 @@ Variants(fd) ==
          \cup (IF fd.c = "sob" THEN {"f"} ELSE {})
          \cup (IF CanRef(fd) THEN {"ref", "refsib", "xref", "xfrag", "xrefsib"} ELSE {})
          \cup (IF fd.c = "pref" THEN {"xref", "xfrag"} ELSE {})
+         \cup (IF fd.c \in {"map", "strmap", "anymap"} THEN {"mk"} ELSE {})     \* map keys are data: two keys with upper case, dots, parameters ...
 (* variants that leave the document in normal form *)
 NormalVariant(fd, var) == ~(var \in {"refsib", "xrefsib"} \/ (var = "z" /\ fd.zr = "red"))
 
@@ -338,10 +346,10 @@ Val(kind, fd, var) ==
                                 [] OTHER -> AnyV
           [] fd.c = "anys" -> Av(<<Sv("a"), Nm("1"), N, Bv(FALSE), O1("o", EmptyA)>>)
           [] fd.c = "strs" -> Av(<<Sv(StrOf(fd.n)), Sv("b")>>)
-          [] fd.c = "strmap" -> Ov(<<"k1", "k2">>, <<Sv(StrOf(fd.n)), Sv("")>>)
-          [] fd.c = "anymap" -> Ov(<<"p", "q">>, <<AnyV, Sv("$request.path.id")>>)
+          [] fd.c = "strmap" -> IF var = "mk" THEN Ov(MapKeys2(fd), <<Sv(StrOf(fd.n)), Sv("v2")>>) ELSE Ov(<<"k1", "k2">>, <<Sv(StrOf(fd.n)), Sv("")>>)
+          [] fd.c = "anymap" -> IF var = "mk" THEN Ov(MapKeys2(fd), <<Sv("a"), Nm("1")>>) ELSE Ov(<<"p", "q">>, <<AnyV, Sv("$request.path.id")>>)
           [] fd.c = "obj"  -> nested(fd.k)
-          [] fd.c = "map"  -> O1(MapKeyOf(fd), nested(fd.k))
+          [] fd.c = "map"  -> IF var = "mk" THEN Ov(MapKeys2(fd), <<nested(fd.k), Min(fd.k)>>) ELSE O1(MapKeyOf(fd), nested(fd.k))
           [] fd.c = "arr"  -> Av(<<nested(fd.k)>>)
           [] fd.c \in {"secreqs", "secreqsp"} -> SecReqsV
           [] fd.c = "sob"  -> IF var = "f" THEN Bv(FALSE) ELSE nested(fd.k)
